@@ -106,8 +106,8 @@ def check(run):
               "prop:composeinfo.Release.type_suffix", "fn:composeinfo.get_date_type_respin",
               "meth:composeinfo.ComposeInfo.create_compose_id"):
         verify.verify(run, c.E, c.contracts[k])
-    verify.verify(run, c.E, c.contracts["meth:composeinfo.Compose.deserialize_0_3"]) if \
-        "meth:composeinfo.Compose.deserialize_0_3" in c.contracts else None
+    # the one reader that DECODES an id while loading: a pre-0.3 compose section takes date/type/respin from its id
+    verify.verify(run, c.E, c.contracts["gate:composeinfo.Compose.deserialize.fields"], crosscheck=False)
 
     rxob.differential_check(run, [("get_date_type_respin", p) for p in pats], 5 if run.tier == "quick" else 7)
     bounded(run, c, bool(known))
